@@ -377,6 +377,9 @@ pub struct MsgCase {
     /// true: one-pass (builder); false: prefixed signature packet + literal
     pub one_pass: bool,
     pub n: usize,
+    /// explicit payload instead of msg::payload(n, text)
+    #[serde(default)]
+    pub doc: Option<Vec<u8>>,
 }
 
 fn run_msg(c: &MsgCase) -> Outcome {
@@ -389,7 +392,7 @@ fn run_msg(c: &MsgCase) -> Outcome {
         (false, _) => KeyKind::EcdsaP256V4,
     };
     let kinds: Vec<KeyKind> = if c.signers == 2 { vec![c.key, second] } else { vec![c.key] };
-    let payload = msg::payload(c.n, c.text);
+    let payload = c.doc.clone().unwrap_or_else(|| msg::payload(c.n, c.text));
     let cfg = MsgCfg {
         source: 0,
         compression: 0,
@@ -517,6 +520,47 @@ fn run_msg(c: &MsgCase) -> Outcome {
     for len in 0..bytes.len() {
         evals += 1;
         check(&bytes[..len], format!("message truncated to {len} octets"), &mut o);
+    }
+    // line-ending deviations of the signed data: CR / LF substituted, inserted, an octet deleted
+    // at every position of the literal data (the packet re-framed with a truthful length)
+    if let Some(li) = packets.iter().position(|p| p.0 == 11) {
+        let lit = &packets[li].2;
+        if lit.len() >= payload.len() && lit[lit.len() - payload.len()..] == payload[..] {
+            let head = &lit[..lit.len() - payload.len()];
+            let mut variants: Vec<(String, Vec<u8>)> = Vec::new();
+            for pos in 0..=payload.len() {
+                for ch in [b'\r', b'\n'] {
+                    let mut v = payload.clone();
+                    v.insert(pos, ch);
+                    variants.push((format!("{ch:#04x} inserted at data offset {pos}"), v));
+                    if pos < payload.len() && payload[pos] != ch {
+                        let mut v = payload.clone();
+                        v[pos] = ch;
+                        variants.push((format!("data octet {pos} ({:#04x}) replaced by {ch:#04x}", payload[pos]), v));
+                    }
+                }
+                if pos < payload.len() {
+                    let mut v = payload.clone();
+                    v.remove(pos);
+                    variants.push((format!("data octet {pos} ({:#04x}) deleted", payload[pos]), v));
+                }
+            }
+            for (what, v) in variants {
+                let mut out = Vec::new();
+                for (i, p) in packets.iter().enumerate() {
+                    if i == li {
+                        out.extend_from_slice(&frame_min(11, &[head, &v[..]].concat()));
+                    } else {
+                        out.extend_from_slice(&frame_min(p.0, &p.2));
+                    }
+                }
+                evals += 1;
+                check(&out, what, &mut o);
+                if o.viol.len() >= 3 {
+                    break;
+                }
+            }
+        }
     }
     o.evals = evals.max(1);
     o
@@ -742,16 +786,28 @@ pub fn check(ctx: &Ctx) {
                         continue;
                     }
                     for n in if quick { vec![0usize, 12] } else if deep { vec![0usize, 1, 2, 12, 40, 100, 513] } else { vec![0usize, 1, 12, 40] } {
-                        mc.push(MsgCase { key, signers, text, one_pass, n });
+                        mc.push(MsgCase { key, signers, text, one_pass, n, doc: None });
                     }
                 }
+            }
+        }
+    }
+    // texts with every kind of line ending next to each other (lone CR, CR LF, LF, CR CR LF)
+    for key in [KeyKind::Ed25519V4, KeyKind::Ed25519V6] {
+        for one_pass in [true, false] {
+            for doc in [&b"a\rb\r\nc\r\rd\r\n\re\r\n"[..], &b"\r\nx\r"[..], &b"one\ntwo\rthree\n\n"[..]] {
+                // the builder takes a utf8 literal only in CR LF form
+                if one_pass && crate::reference::canon::canon(doc) != doc {
+                    continue;
+                }
+                mc.push(MsgCase { key, signers: 1, text: true, one_pass, n: doc.len(), doc: Some(doc.to_vec()) });
             }
         }
     }
     ctx.run_space(
         "signed_messages",
         true,
-        "one-pass signed messages (1 and 2 signers) and prefixed-signature messages, binary and text, v4 and v6: EVERY single-bit flip of the whole message (one-pass headers, literal packet incl. its header, signature packets) and every truncation; when Message::from_bytes + read_to_end + verify accept for a signer, the data read must be the signed payload (modulo text canonicalisation), the verifying signature packet's protected fields and the hashing-relevant one-pass fields (version, type, hash, salt) must be authentic",
+        "one-pass signed messages (1 and 2 signers) and prefixed-signature messages, binary and text, v4 and v6: EVERY single-bit flip of the whole message (one-pass headers, literal packet incl. its header, signature packets), every truncation, and CR / LF substituted or inserted and an octet deleted at every position of the literal data (texts mixing lone CR, CR LF and LF included); when Message::from_bytes + read_to_end + verify accept for a signer, the data read must be the signed payload (modulo text canonicalisation), the verifying signature packet's protected fields and the hashing-relevant one-pass fields (version, type, hash, salt) must be authentic",
         mc.into_par_iter(),
         run_msg,
     );
